@@ -348,11 +348,64 @@ def add_constraint(case):
         check("new-entry-is-the-translation", mk_bool(_z3.Select(after.arr, nc.t) == w.CT(5000000)))
 
 
-@harness("C01", cases=[dict(outcome=o) for o in ("sat", "unsat", "unknown")])
+class _FakeZ3Solver:
+    """native stand-in for z3.Solver whose check() gives up (replay of the `unknown` case)"""
+
+    def add(self, *a):
+        pass
+
+    def set(self, *a, **k):
+        pass
+
+    def check(self):
+        return "unknown"
+
+    def model(self):
+        raise RuntimeError("model is not available")
+
+
+def _native_unknown():
+    """run the real Z3Backend.solve natively against a z3 whose check() returns unknown"""
+    import types
+    fake = types.SimpleNamespace(Solver=_FakeZ3Solver, sat="sat", unsat="unsat", unknown="unknown",
+                                 Bool=lambda n: ("Bool", n), Int=lambda n: ("Int", n), is_true=lambda v: bool(v))
+    BoolVar = CLS("cspuz/expr.py", "BoolVar")
+    vs = [BoolVar(0), BoolVar(1)]
+    with override_global(ZB, "z3", fake):
+        be = construct(CLS(ZB, "Z3Backend"), vs)
+        o = call(REAL(ZB, "Z3Backend.solve"), be)
+    check("unknown-is-not-reported-as-unsatisfiable", o.raised or o.value is not False)
+    check("unknown-is-not-reported-as-satisfiable", o.raised or o.value is not True)
+
+
+CONF = "cspuz/configuration.py"
+
+
+@harness("C01", cases=[dict(outcome=o) for o in ("sat", "unsat", "unknown")],
+         native_inputs=lambda case: [dict(timeout=t) for t in (None, 1)] if case.outcome == "unknown" else [])
 def solve(case):
     """assertions = bounds of every IntVar + the translated constraints; False only on unsat; sol from the model"""
+    if CTX.mode == "native":
+        if case.outcome == "unknown":
+            cfg = GLOBAL(CONF, "config")
+            old = cfg.solver_timeout
+            cfg.solver_timeout = CTX.native_inputs.get("timeout")
+            try:
+                _native_unknown()
+            finally:
+                cfg.solver_timeout = old
+        return
+    if CTX.mode == "interp":
+        raise OutOfSubset("native-only stand-in for z3")
     if CTX.mode != "sym":
         return
+    # the process-wide configuration object, should the back end consult it: arbitrary time budget
+    tmo = None if SBool(_z3.Bool("timeout_unset")) else sint("solver_timeout_ms")
+    if tmo is not None:
+        requires(tmo >= 1)
+    cfgobj = OBJ(CONF, "Config", default_backend="z3", backend_path=None, csugar_binding=None, use_graph_primitive=False,
+                 use_graph_division_primitive=False, solver_timeout=tmo)
+    CTX.overrides[(CONF, "config")] = cfgobj
     w = World()
     be, d, cons, nc = _backend(w)
     log = []
